@@ -726,9 +726,9 @@ fn write_evidence(
             "stubs": ["scheduling of atomic operations (baton; the operation itself is the real std atomic)", "wrapped sequential iterator (probe)", "element types (identity, clone, destructor ledger)", "user closures", "global allocator wrapper (forwards to System)"],
         },
         "assumptions": [
-            "sampling: a clean batch is evidence, not proof; sizes bounded (len <= 12, <= 4 threads)",
+            "sampling: a clean batch is evidence, not proof; sizes bounded (mostly len <= 12 and <= 4 pulling threads; 4 % of the runs 31-129 elements, 0.4 % 257-2141; thorough tier up to 24 elements and 6 threads)",
             "values are sequentially consistent interleavings plus bounded staleness of relaxed/acquire loads (F8); happens-before is computed from the orderings the crate passes to the shim",
-            "wrapped iterators are fused and honest about an exact size hint",
+            "wrapped iterators are honest about an exact size hint (and fused, except in C05)",
             "synchronisation that bypasses the shimmed atomics is invisible to the simulator"
         ],
         "wall_s": wall,
